@@ -58,6 +58,7 @@ type MapV struct {
 	m    map[any]*mapEntry
 	vt   types.Type
 	kt   types.Type
+	sh   *Cell // race-monitor proxy for the whole map
 }
 
 type mapIter struct {
